@@ -6,12 +6,19 @@
 From Coq Require Import ZArith NArith List Bool.
 From FR Require Import Dec Types Bank Match Step Genesis Model Spec Checkers.
 From FR.Proofs Require Import InvDefs InvAll ExcessExamples Chk19.
+From FR.Proofs Require ChkOwn19.
 Import ListNotations.
 Open Scope Z_scope.
 
 Theorem C19_checker : forall s o, Inv s -> oracle_ok s o -> c19_ok (model_trans s o) = true.
 Proof. intros s o I _. exact (c19_ok_model s o I). Qed.
 Print Assumptions C19_checker.
+
+(* the checker the driver evaluates for C19: c19_ok and c19_release_own (what leaves the vesting escrow of an auction in
+   a block is that auction's own due instalments, paid to its own auctioneer) *)
+Theorem C19_all_checker : forall s o, Inv s -> oracle_ok s o -> c19_all (model_trans s o) = true.
+Proof. exact ChkOwn19.c19_all_model. Qed.
+Print Assumptions C19_all_checker.
 
 (* ---- the hypothesis is satisfiable: two auctions (0: fixed price, started, one bid; 1: batch, waiting to open at 150);
    a bid on auction 0, a rejected bid on auction 1, a deposit into an escrow of auction 1, the block that opens
